@@ -112,6 +112,10 @@ def gen_model(rng, want_mc=None, nports=None, clash=False):
         visible_simple = itf['ns'] == cns[:len(itf['ns'])]           # declared in the component's scope or an enclosing one
         spelled = rng.choice([[itf['name']], full]) if visible_simple else full
         ports.append({'name': nme, 'type': spelled, 'dir': direction, 'inj': direction == 'requires' and rng.random() < 0.15})
+    mc_name = ports[0]['name']
+    if mc_on and len(ports) > 1 and rng.random() < 0.6:       # the multi-client port need not be declared first
+        k = rng.randrange(1, len(ports))
+        ports[0], ports[k] = ports[k], ports[0]
     kind = rng.choice(['component', 'component', 'system'])
     decls.append(model.new_decl(kind, cns + ['Comp'], ports=ports))
     prov = [p['name'] for p in ports if p['dir'] == 'provides']
@@ -131,7 +135,7 @@ def gen_model(rng, want_mc=None, nports=None, clash=False):
         pcfg, rcfg = {'sts': shell.NONE, 'mts': shell.ALL}, {'sts': shell.NONE, 'mts': shell.ALL}
     mcc = {'on': False, 'port': '', 'claim': '', 'grant': ['x'], 'release': ''}
     if mc_on:
-        mcc = {'on': True, 'port': ports[0]['name'], 'claim': claim, 'grant': ['Ok'], 'release': release}
+        mcc = {'on': True, 'port': mc_name, 'claim': claim, 'grant': ['Ok'], 'release': release}
     cfg = {'enc': cns + ['Comp'], 'prov': pcfg, 'req': rcfg, 'mc': mcc, 'origin': rng.choice(['create', 'import']),
            'prefix': rng.choice([[], [], ['My'], ['Vendor', 'Lib']]), 'suffix': rng.choice(['Shell', 'AdvShell']), 'base': 'Mod'}
     return decls, cfg, fields.index('Ok')
@@ -494,7 +498,7 @@ def generic_check(pid, tier, seed, script_kind, rule, nprogs, nscripts, length, 
             jobs.append((prog, cmds, script_kind))
     traces = eng.execute(jobs)
     if pid in ('C01', 'C02', 'C10'):
-        wiring_net(chk, eng, tier, seed, 300 if tier == 'quick' else 4000)
+        wiring_net(chk, eng, tier, seed, 400 if tier == 'quick' else 5000)
     if traces:
         chk.sample({'cfg': traces[0]['prog'].cfg, 'route': traces[0]['cx']['route'][:3],
                     'commands': [cmd_line(e['cmd']) for e in traces[0]['events']][:14],
